@@ -9,7 +9,7 @@ CONSTANTS
   M = 16
   InitEp = {0}
   MaxEp = 7
-  MaxOps = 3
+  MaxOps = 2
   MaxDepth = 3
   ExpAge = 3
   CasAge = 3
